@@ -16,6 +16,7 @@ from pexpect import EOF, TIMEOUT, ExceptionPexpect, fdpexpect, socket_pexpect
 
 from ..core.runner import split_range
 from ..core.watchdog import watchdog, CaseTimeout
+from ..core.acc import second_attempt
 from ..workloads.gen_expect import rng_for
 from ..workloads.puppetctl import Puppet, PeerError, proc_stat, wait_state
 
@@ -518,7 +519,16 @@ def _one(case, acc):
         acc.inconc('peer: %s (%r)' % (e, case))
         return
     except CaseTimeout as e:
-        acc.inconc('watchdog: %s (%r)' % (e, case))
+        def again():
+            if case['kind'] == 'pty':
+                pty_sequence(case, acc)
+            else:
+                fd_sequence(case, acc)
+        try:
+            second_attempt(acc, case, again, 60, 'operation sequence %s on a %s child did not finish within 60 s' % (
+                '>'.join(case.get('seq', [])), case.get('disp', case.get('tr'))))
+        except PeerError as e2:
+            acc.inconc('peer: %s (%r)' % (e2, case))
         return
     if nt:
         if case.get('enum'):
